@@ -18,6 +18,10 @@ DhVals == MapSeq(SetToSeq({<<a, b, c>> : a \in 1..4, b \in 1..4, c \in 1..4}),
           \o << [p |-> Big, g |-> <<2>>, ys |-> <<>>], [p |-> <<>>, g |-> <<>>, ys |-> Big], [p |-> Big, g |-> Big, ys |-> Big],
                 [p |-> <<0>>, g |-> <<0>>, ys |-> <<0>>], [p |-> <<0, 0, 0>>, g |-> <<>>, ys |-> <<0, 1>>], [p |-> RepZero(300), g |-> <<255>>, ys |-> <<>>] >>
           \o [k \in 1..12 |-> [p |-> Fill(k, 256 * <<1, 2, 3, 4, 7, 8, 16, 32, 64, 100, 128, 200>>[k] + (k % 2)), g |-> <<2>>, ys |-> <<k>>]]
+(* integers with sign octets, leading zeros and high bits: opaque bytes, kept as sent (len(ys) = len(p) + 1 included) *)
+DhSignVals == << [p |-> <<200, 1>>, g |-> <<2>>, ys |-> <<0, 200, 7>>], [p |-> <<0, 200, 1>>, g |-> <<0, 2>>, ys |-> <<0, 0, 129>>],
+                 [p |-> Fill(1, 128), g |-> <<5>>, ys |-> <<0>> \o [j \in 1..128 |-> 255]], [p |-> <<127>>, g |-> <<0>>, ys |-> <<0, 128>>],
+                 [p |-> <<255>>, g |-> <<255>>, ys |-> <<255, 255>>], [p |-> <<1>>, g |-> <<>>, ys |-> <<0, 255>>] >>
 PointVals == [k \in 1..3 |-> [point |-> Lens3[k]]] \o << [point |-> <<0>>], [point |-> <<0, 0, 0, 0>>] >>
 Named(g) == [ct |-> 3, content |-> [t |-> "NamedGroup", g |-> g]]
 Expl(k) == [ct |-> 1, content |-> [t |-> "ExplicitPrime", p |-> Lens3[k], a |-> Lens3[(k % 3) + 1], b |-> Lens3[((k + 1) % 3) + 1],
@@ -67,7 +71,25 @@ CasCases ==
         << Mk("cas", "parse_content_and_signature", sub, flag, enc \o Sfx[(g % 3) + 1], [content |-> vals[j], sig |-> sg], Len(Sfx[(g % 3) + 1])),
            Mk("casflip", "parse_content_and_signature", sub, 1 - flag, enc \o Sfx[(g % 3) + 1], <<>>, 0) >>])])])
 
-ASSUME TLCSet(1, EncCases(DhVals, EncDhParams, "parse_dh_params") \o EncCases(PointVals, EncEcPoint, "ECPoint::parse")
+(* the two signature structures are told apart by the flag only: inputs that are well formed under BOTH readings *)
+(* (<<h, s>> \o BE16(256h + s - 2) \o data is also a legacy signature of 256h + s bytes), under both flags        *)
+AmbPairs == <<<<1, 0>>, <<2, 0>>, <<4, 0>>, <<0, 2>>, <<0, 4>>, <<1, 1>>, <<4, 3>>, <<2, 1>>>>
+AmbCases ==
+  Concat([q \in 1..Len(AmbPairs) |->
+    LET h == AmbPairs[q][1]  sg == AmbPairs[q][2]  n == 256 * h + sg - 2
+        sig == <<h, sg>> \o BE16(n) \o Fill(q, n)
+        newv == [alg |-> Some([hash |-> h, sign |-> sg]), data |-> Fill(q, n)]
+        oldv == [alg |-> None, data |-> BE16(n) \o Fill(q, n)] IN
+    Concat([w \in 1..2 |->
+      LET sub == <<"dh", "ecdh">>[w]  v == IF w = 1 THEN DhSignVals[((q - 1) % 6) + 1] ELSE EcdhVals[q]
+          enc == SubEnc(sub, v) \o sig IN
+      << Mk("cas", "parse_content_and_signature", sub, 1, enc, [content |-> v, sig |-> newv], 0),
+         Mk("cas", "parse_content_and_signature", sub, 0, enc, [content |-> v, sig |-> oldv], 0),
+         Mk("cas", "parse_content_and_signature", sub, 1, enc \o <<0>>, [content |-> v, sig |-> newv], 1),
+         Mk("enc", "parse_digitally_signed", "", 0, sig, newv, 0),
+         Mk("enc", "parse_digitally_signed_old", "", 0, sig, oldv, 0) >>])])
+
+ASSUME TLCSet(1, EncCases(DhSignVals, EncDhParams, "parse_dh_params") \o AmbCases \o EncCases(DhVals, EncDhParams, "parse_dh_params") \o EncCases(PointVals, EncEcPoint, "ECPoint::parse")
                  \o EncCases(EcVals, EncEcParameters, "parse_ec_parameters") \o EncCases(EcdhVals, EncEcdhParams, "parse_ecdh_params")
                  \o EncCases(SignedNew, EncSigned, "parse_digitally_signed") \o EncCases(SignedOld, EncSigned, "parse_digitally_signed_old")
                  \o CutCases(DhVals, EncDhParams, "parse_dh_params") \o CutCases(EcVals, EncEcParameters, "parse_ec_parameters")
